@@ -1001,11 +1001,26 @@ def _compose_failures(spec: dict) -> tuple:
         for hit in hits:
             if hit in kept:
                 continue
+            # explained by a kept hit of its own profile scoring at least as high, or - where equivalent profiles
+            # compete - by a KEPT hit of its overlapping group scoring at least as high
             own = any(k[1] == hit[1] and k[4] >= hit[4] for k in kept)
-            rival = competing and any(other != hit and other[4] >= hit[4] for other in comp_of[hit])
+            rival = competing and any(other != hit and other in kept and other[4] >= hit[4]
+                                      for other in comp_of[hit])
             if not own and not rival:
+                top = max(other[4] for other in comp_of[hit])
+                displacers = []
+                for other in comp_of[hit]:
+                    if other == hit or other in kept or other[4] < hit[4]:
+                        continue
+                    favoured = [k for k in kept if k[1] == other[1] and k[4] >= other[4] and k not in comp_of[hit]]
+                    displacers.append({
+                        "hit": other, "best_of_the_overlapping_group": other[4] == top,
+                        "profile_equivalent_to_dropped": any(other[1] in group and hit[1] in group
+                                                             for group in groups),
+                        "kept_own_profile_hits_outside_the_group": favoured})
                 failures.append(("compose_unexplained_drop", {"gene": gene, "hit": hit, "kept": kept,
-                                                              "competing_profiles_present": competing}))
+                                                              "competing_profiles_present": competing,
+                                                              "dropped_displacers": displacers}))
     for gene in base:
         if gene not in by_gene:
             failures.append(("compose_invented_hit", {"gene": gene, "problem": "gene without hits above cutoff"}))
@@ -1270,6 +1285,18 @@ def _filter_groups_not_merged(sub, spec, clause, detail) -> bool:
     return (sub == "filter" and clause in ("filter_order", "filter_order_addresses")
             and detail.get("stage1_differs") is True
             and detail.get("stage1_changed_hits_all_in_chained_group_of_5") is True)
+
+
+@_sig
+def _compose_displacer_dropped_by_profile_stage(sub, spec, clause, detail) -> bool:
+    """ find_hmmer_hits: an unexplained drop on a gene with competing equivalent profiles AND the best hit of the
+        dropped hit's overlapping group (scoring at least as high) is itself not kept while a hit of that winner's
+        own profile, scoring at least as high and lying outside the group, is kept: the winner of the competition
+        was removed afterwards by the one-hit-per-profile stage and its losers were not reconsidered """
+    return (sub == "compose" and clause == "compose_unexplained_drop"
+            and detail.get("competing_profiles_present") is True
+            and any(d["best_of_the_overlapping_group"] and d["kept_own_profile_hits_outside_the_group"]
+                    for d in detail.get("dropped_displacers", [])))
 
 
 @_sig
